@@ -436,6 +436,30 @@ def bulk_check(ctx):
             rec.violation("C09:bulk:shrink-differs", start=s, got=got)
 
 
+    # the same through the table form: a frame with two annotation columns and one that must stay as it is
+    import warnings
+    half = len(valid) // 2
+    n = min(half, len(valid) - half)
+    frame = pd.DataFrame({"a": valid[:n], "b": valid[half:half + n], "keep": valid[:n]}, dtype=str)
+    for cols in (["a", "b"], ["b"]):
+        df = frame.copy()
+        with warnings.catch_warnings():
+            warnings.simplefilter("ignore")
+            df_util.expand_defs(df, env.schema, env.dd, cols)
+            expanded = df.copy()
+            df_util.shrink_defs(df, env.schema, cols)
+        for c in ("a", "b", "keep"):
+            for s, e, g in zip(frame[c], expanded[c], df[c]):
+                rec.n("evaluations")
+                rec.n("distinct_nontrivial")
+                want_e = canon(ref_expand(to_tree(s))) if c in cols else canon(to_tree(s))
+                want_s = canon(ref_shrink(ref_expand(to_tree(s)))) if c in cols else canon(to_tree(s))
+                if canon(to_tree(e)) != want_e:
+                    rec.violation("C09:bulk:frame-expand-differs", start=s, column=c, columns=cols, got=e)
+                elif canon(to_tree(g)) != want_s:
+                    rec.violation("C09:bulk:frame-shrink-differs", start=s, column=c, columns=cols, got=g)
+
+
 def run(ctx):
     depth = ctx.pick(4, 6)
     ctx.rec.notes["bounds"] = {"history_depth": depth, "starts": STARTS, "ops": OPS, "definitions": DEFS,
